@@ -28,6 +28,7 @@ package storage
 
 //@ func Has(ctx, store, key) (r, err)
 //@   requires store != nil
+//@   assigns foreign
 //@   before Has assert[C17] carg0 == store && carg2 == key
 //@   after Has let got = result0
 //@   after Has let goterr = result1
@@ -35,6 +36,7 @@ package storage
 
 //@ func Get(ctx, store, key) (r, err)
 //@   requires store != nil
+//@   assigns foreign
 //@   before Get assert[C17] carg0 == store && carg2 == key
 //@   after Get let got = result0
 //@   after Get let goterr = result1
@@ -42,6 +44,7 @@ package storage
 
 //@ func Put(ctx, store, key, content) (err)
 //@   requires store != nil
+//@   assigns foreign
 //@   before Put assert[C17] carg0 == store && carg2 == key && carg3 == content
 //@   after Put let goterr = result0
 //@   ensures[C17] err == goterr
@@ -49,6 +52,7 @@ package storage
 // GetStream: the storage's own stream, or a reader over exactly what Get returned (and Get's error).
 //@ func GetStream(ctx, store, key) (r, err)
 //@   requires store != nil
+//@   assigns foreign
 //@   before GetStream assert[C17] carg2 == key
 //@   before Get assert[C17] carg0 == store && carg2 == key
 //@   after Get let blob = result0
@@ -59,6 +63,7 @@ package storage
 // Peek: the storage's own peek, or exactly what Get returned.
 //@ func Peek(ctx, store, key) (r, cl, err)
 //@   requires store != nil
+//@   assigns foreign
 //@   before Peek assert[C17] carg2 == key
 //@   before Get assert[C17] carg0 == store && carg2 == key
 //@   after Get let blob = result0
